@@ -47,7 +47,7 @@ def parse_rows(s):
     return out
 
 
-def predicates(ctx, sim, label, foreign_of=None):
+def predicates(ctx, sim, label, seq=False):
     """The property predicates on what the REAL code holds / wrote, for the whole restart chain of `sim`
     (independent of the model comparison, which is done afterwards on the recorded lines).
     Live weights = [current.frac] entries of the paths listed in [current.active] of restart.toml."""
@@ -60,9 +60,6 @@ def predicates(ctx, sim, label, foreign_of=None):
     chain = list(getattr(sim, "previous", [])) + [sim]
     last_cstep = None
     for seg_i, seg in enumerate(chain):
-        # table entries an EARLIER simulation of the same process left behind (sequence family only; see
-        # PENDING_FINDINGS): not this simulation's paths until it hands out their numbers itself
-        foreign = set(foreign_of(seg)) if foreign_of else set()
         rows = list(carry_rows)
         prev_held, prev_d = [], None
         for idx, (tag, d, held) in enumerate(seg.snaps):
@@ -72,12 +69,6 @@ def predicates(ctx, sim, label, foreign_of=None):
             rfrac = parse_frac(d["_restart_frac"]) if tag == "treat" else None
             live = [int(t) for t in d["trajs"].split(",")[:-1]]
             mem_frac = parse_frac(d["frac"])
-            if foreign:
-                foreign -= set(live)
-                if rfrac is not None and foreign & set(rfrac):
-                    ctx.hit("pending:" + PENDING_FINDINGS[0])
-                    rfrac = {k: v for k, v in rfrac.items() if k not in foreign}
-                mem_frac = {k: v for k, v in mem_frac.items() if k not in foreign}
             # rows: at most once, never while live
             pns = [r[0] for r in rows]
             if len(set(pns)) != len(pns):
@@ -105,6 +96,13 @@ def predicates(ctx, sim, label, foreign_of=None):
                 ctx.fail("C04:restart-active", f"restart.toml active {active} vs live paths {live}", rep)
                 prev_held, prev_d = held, d
                 continue
+            # [current.frac] holds the weights of the simulation's own live paths and of nothing else
+            alien = sorted(p for p in rfrac if p not in active)
+            if alien:
+                ctx.fail("C04:seq:restart-file-lists-weights-of-an-earlier-simulation" if seq else
+                         "C04:restart-frac-lists-non-live-path",
+                         f"restart.toml [current.frac] has entries for paths {alien} that are not active (active {active}): "
+                         + "; ".join(f"{p}: {rfrac[p]}" for p in alien[:3]), rep)
             missing = sorted(p for p in active if p not in rfrac)
             if missing or set(rfrac) != set(mem_frac):
                 ctx.fail("C04:restart-frac-keys", f"restart.toml frac keys {sorted(rfrac)} vs traj_data {sorted(mem_frac)}; "
@@ -522,11 +520,10 @@ def mc_history(ctx, n_ens, workers, steps, seed, label):
 # (`REPEX_state(config)`, `initiate_ensembles()`, `load_paths(...)`): repex_tie.Sim additionally rebinds class-level
 # attributes of REPEX_state on the instance; that is undone here (`unshadow`), except for the path-store stub.
 #
-# Known on the unchanged tree (DESIGN §9.2, observations): `REPEX_state.traj_data` is a class-level dict, so the table
-# of a later simulation still holds the entries of paths of an earlier one, and `write_toml` lists them in
-# `[current.frac]`.  They are never active and are overwritten when the later run reaches their numbers, so the C04 law
-# holds; but the restart file does depend on what ran before.  Recorded as pending (not an alarm): the coordinator decides.
-PENDING_FINDINGS = ["C04:seq:restart-file-lists-weights-of-an-earlier-simulation"]
+# History: until /repo 6d8754f `REPEX_state.traj_data` (and `ensembles`, `engine_occ`, `pstore`) were class-level objects;
+# a simulation started after another one listed the earlier one's paths in its `[current.frac]`
+# (known_findings: C04:seq:restart-file-lists-weights-of-an-earlier-simulation, fixed).  Nothing is filtered here:
+# the statement is enforced in full, incl. byte-equal files for a simulation run after others vs run first.
 HARNESS_STUBS = {"pstore"}                    # replaced by the tie on purpose (FakeStore: the path store is C08/C14's)
 SET_UP_BY_REAL_CODE = {"ensembles", "engine_occ"}   # bound on the instance by initiate_ensembles / setup_internal
 
@@ -612,27 +609,32 @@ def seq_plans(ctx):
     return plans
 
 
-def seq_process(ctx, acts, tag, seq_outs):
-    """run the actions one after the other in this interpreter, starting from the class-level state of a fresh one"""
+def seq_process(ctx, acts, tag, judge=True):
+    """run the actions one after the other in this interpreter, starting from the class-level state of a fresh one;
+    returns [(sim, label, name, segment index)]; every Sim keeps the bytes of its two files (`final_files`)"""
     from infretis.classes import repex as R
     cls = R.REPEX_state
     saved = [(k, v, (dict(v) if isinstance(v, dict) else list(v) if isinstance(v, list) else set(v)))
              for k, v in class_level_state(cls)]
     for _k, v, _c in saved:
         v.clear()                                  # a fresh interpreter
-    sim_init = T.Sim.__init__
-    born = {}
+    sim_init, sim_load, sim_close = T.Sim.__init__, T.Sim.load_initial, T.Sim.close
 
     def init(self, *a, **k):
         sim_init(self, *a, **k)
         self.unshadowed = unshadow(self.st, self.cfg)
-        # what the class-level containers hold when this simulation starts (left behind by earlier ones)
-        born[id(self)] = {kk: (set(vv) if not isinstance(vv, dict) else set(vv.keys())) for kk, vv in class_level_state(cls)}
 
-    T.Sim.__init__ = init
-    sim_load = T.Sim.load_initial
-    T.Sim.load_initial = real_load_initial
+    def close(self):
+        files = {}
+        for fn in ("infretis_data.txt", "restart.toml"):
+            fp = os.path.join(self.tmp, fn)
+            files[fn] = open(fp, "rb").read() if os.path.exists(fp) else None
+        self.final_files = files
+        sim_close(self)
+
+    T.Sim.__init__, T.Sim.load_initial, T.Sim.close = init, real_load_initial, close
     chains = {}          # name -> (list of finished segments, image, weights)
+    out = []
     try:
         for ai, (name, n_ens, workers, steps, seed, wf, acc_p, stop) in enumerate(acts):
             prev, image, weights = chains.get(name, ([], None, None))
@@ -640,70 +642,87 @@ def seq_process(ctx, acts, tag, seq_outs):
                 continue                            # the simulation finished: nothing to restart
             label = (f"seq[{tag}] action {ai} sim {name}: n_ens={n_ens} workers={workers} steps={steps} seed={seed} wf={wf} "
                      f"acc_p={acc_p} stop={stop} segment={len(prev)} ctxseed={ctx.seed}")
-            rng = random.Random(f"seq {tag} {name} {len(prev)} {ctx.seed}")
+            # the outcomes of a simulation are its own input: keyed by its name and segment, not by its place in the plan
+            rng = random.Random(f"seq {name} {n_ens} {workers} {steps} {seed} {len(prev)} {ctx.seed}")
             sim = T._run_segment(ctx, n_ens, workers, steps, seed, wf, 1, acc_p, None, rng, stop, image, weights)
             sim.previous = list(prev)
             sim.params = {"seq": [list(a) for a in acts], "tag": tag, "action": ai}
-            sim.foreign = born.get(id(sim), {}).get("traj_data", set())
-            ctx.count(sum(1 for s_ in sim.snaps if s_[0] == "treat"), history=f"seq:n{n_ens}w{workers}" + ("+restart" if prev else ""))
-            if "traj_data" not in getattr(sim, "unshadowed", []):
-                ctx.hit("seq:nothing-unshadowed")
-            predicates(ctx, sim, label, foreign_of=lambda seg: getattr(seg, "foreign", set()))   # whole chain, ITS files
-            seq_outs.append((sim, label))
+            if judge:
+                ctx.count(sum(1 for s_ in sim.snaps if s_[0] == "treat"),
+                          history=f"seq:n{n_ens}w{workers}" + ("+restart" if prev else ""))
+                if getattr(sim, "unshadowed", []):
+                    ctx.hit("seq:class-level-attribute-left-shared:" + ",".join(sim.unshadowed))
+                predicates(ctx, sim, label, seq=True)            # the whole chain of this simulation, on ITS files
+                ctx.distinct(("seq", tag, ai, ctx.seed))
+            out.append((sim, label, name, len(prev)))
             chains[name] = (prev + [sim], sim.image if sim.error is None else None,
                             getattr(sim, "weights_by_pn", None))
-            ctx.distinct(("seq", tag, ai, ctx.seed))
     finally:
-        T.Sim.__init__ = sim_init
-        T.Sim.load_initial = sim_load
+        T.Sim.__init__, T.Sim.load_initial, T.Sim.close = sim_init, sim_load, sim_close
         for _k, v, c in saved:
             v.clear()
             v.update(c) if not isinstance(v, list) else v.extend(c)
+    return out
+
+
+def seq_independence(ctx, acts, tag, ran):
+    """every simulation of the plan once more, ALONE in a fresh class-level state ("run first"): the bytes of its data
+    file and of its restart.toml at the end of every segment, and every state dump on the way, must be the same"""
+    names = []
+    for a in acts:
+        if a[0] not in names:
+            names.append(a[0])
+    for name in names:
+        alone = seq_process(ctx, [a for a in acts if a[0] == name], f"{tag}/alone-{name}", judge=False)
+        inseq = [x for x in ran if x[2] == name]
+        rep = {"params": {"seq": [list(a) for a in acts], "tag": tag}, "ctxseed": ctx.seed, "family": "seq", "sim": name}
+        if len(alone) != len(inseq):
+            ctx.fail("C04:seq:files-depend-on-what-ran-before", f"simulation {name}: {len(inseq)} segments in the sequence, "
+                     f"{len(alone)} alone", rep)
+            continue
+        for (sa, _la, _n, seg), (sb, lb, _n2, _s2) in zip(alone, inseq):
+            ctx.count(1, seq="independence-compared")
+            for fn in ("infretis_data.txt", "restart.toml"):
+                fa, fb = sa.final_files.get(fn), sb.final_files.get(fn)
+                if fa != fb:
+                    what = "missing" if fa is None or fb is None else next(
+                        (f"line {i + 1}: alone {x[:120]!r} / in the sequence {y[:120]!r}" for i, (x, y) in
+                         enumerate(zip(fa.decode(errors='replace').splitlines() + [""] * 9999, fb.decode(errors='replace').splitlines() + [""]))
+                         if x != y), "lengths differ")
+                    ctx.fail("C04:seq:restart-file-lists-weights-of-an-earlier-simulation" if fn == "restart.toml" else
+                             "C04:seq:files-depend-on-what-ran-before",
+                             f"{lb}: {fn} differs from the one the same simulation writes when it runs first; {what}", rep)
+                    break
+            else:
+                da = [d for t_, d, _h in sa.snaps]
+                db = [d for t_, d, _h in sb.snaps]
+                if da != db or repr(sa.error) != repr(sb.error):
+                    k = next((i for i, (x, y) in enumerate(zip(da, db)) if x != y), min(len(da), len(db)))
+                    fld = next((f for f in (da[k] if k < len(da) else {}) if k < len(db) and da[k].get(f) != db[k].get(f)), "?")
+                    ctx.fail("C04:seq:files-depend-on-what-ran-before",
+                             f"{lb}: state dump {k} differs in {fld!r} from the run of the same simulation alone", rep)
 
 
 def seq_compare(ctx, seq_outs):
-    """each simulation against its own fresh model instance; table entries left behind by earlier simulations of the
-    process (and nothing else) are taken out of the dumps first and recorded as the pending observation"""
+    """each simulation against its own fresh model instance, nothing filtered"""
     if not seq_outs:
         return
     answers = ctx.driver([l for sm, _ in seq_outs for l in sm.lines])
     pos = 0
     for sm, label in seq_outs:
-        ans = answers[pos:pos + len(sm.lines)]
+        T.compare(ctx, sm, answers[pos:pos + len(sm.lines)], label)
         pos += len(sm.lines)
-        for real, kind, mod in zip(sm.real, sm.kinds, ans):
-            if kind != "dump" or not isinstance(real, dict) or "frac=" not in mod:
-                continue
-            mkeys = {x.split(":")[0] for x in T.parse_dump(mod).get("frac", "").split(";") if x}
-            ents = real["frac"].split(";") if real["frac"] else []
-            extra = [e for e in ents if e.split(":")[0] not in mkeys]
-            if extra and all(int(e.split(":")[0]) in sm.foreign for e in extra):
-                psig = PENDING_FINDINGS[0]
-                ctx.hit(f"pending:{psig}")
-                pend = ctx.extra.setdefault("pending_findings", {})
-                if psig not in pend:
-                    pend[psig] = {"history": label, "entries_of_earlier_simulations_in_the_table": extra[:6],
-                                  "restart_frac_keys": [x.split(":")[0] for x in real.get("_restart_frac", "").split(";") if x],
-                                  "replay": {"params": sm.params, "ctxseed": ctx.seed}}
-                ents = [e for e in ents if e.split(":")[0] in mkeys]
-                real["frac"] = ";".join(ents)
-            # the position of a re-used key in the (shared) dict is the earlier simulation's: same observation;
-            # the order of the table is not observable in the files (write_toml sorts the keys)
-            morder = [x.split(":")[0] for x in T.parse_dump(mod).get("frac", "").split(";") if x]
-            rorder = [e.split(":")[0] for e in ents]
-            if rorder != morder and sorted(rorder) == sorted(morder) and len(set(rorder)) == len(rorder) and \
-                    any(int(k) in sm.foreign for k in rorder):
-                ctx.hit("pending:" + PENDING_FINDINGS[0] + ":table-order")
-                byk = {e.split(":")[0]: e for e in ents}
-                real["frac"] = ";".join(byk[k] for k in morder)
-        T.compare(ctx, sm, ans, label)
 
 
 def seq_family(ctx, only=None):
     seq_outs = []
     plans = [only] if only else seq_plans(ctx)
     for pi, acts in enumerate(plans):
-        seq_process(ctx, [tuple(a) for a in acts], pi if only is None else "replay", seq_outs)
+        acts = [tuple(a) for a in acts]
+        tag = pi if only is None else "replay"
+        ran = seq_process(ctx, acts, tag)
+        seq_independence(ctx, acts, tag, ran)
+        seq_outs += [(sm, label) for sm, label, _n, _s in ran]
     if ctx._driver_ok and only is None:
         seq_compare(ctx, seq_outs)
     return seq_outs
@@ -808,8 +827,8 @@ def run(ctx):
         "several simulations in one process: two to five fresh starts / restarts one after the other in this interpreter, "
         "sampler objects set up as setup_internal does (class-level attributes of REPEX_state left shared; path store "
         "stubbed); each simulation is judged by the C04 predicates on its own files and compared with its own fresh model "
-        "instance; table entries left behind by an earlier simulation (class-level traj_data, DESIGN 9.2) are recorded as "
-        "pending_findings, not as a violation",
+        "instance, nothing filtered; every simulation is also run alone (first in a fresh class-level state) and the bytes "
+        "of its data file and restart.toml at the end of every segment and all state dumps must be the same",
         "model-`prob` = code-`prob` only where C02 ties them: the idle block within C02's staircase family, every block "
         "of at most 12 rows or row-constant.  Larger non-row-constant blocks go to `random_prob`, a Monte-Carlo estimate "
         "drawn from the scheduler stream (two calls on the same W differ by 0.1): there the 'permanent ratio' clause of "
